@@ -19,12 +19,21 @@ DV = "dewey::DeweyVersion::new"
 
 
 def addends(t, base_pred):
-    """flatten Add(Add(base, a), b) -> [a, b] if the innermost operand satisfies base_pred"""
-    out = []
-    while isinstance(t, tuple) and t[0] == "binop" and t[1] == "Add":
-        out.append(t[3])
-        t = t[2]
-    return list(reversed(out)) if base_pred(t) else None
+    """the other leaves of a sum one of whose leaves satisfies base_pred, in written order: Add(Add(base, a), b) -> [a, b], and
+    Add(base, Add(a, b)) -> [a, b] alike (`idx += 2; idx += n` and `idx += 2 + n`)"""
+    leaves = []
+
+    def walk(x):
+        if isinstance(x, tuple) and x and x[0] == "binop" and x[1] == "Add":
+            walk(x[2])
+            walk(x[3])
+        else:
+            leaves.append(x)
+    walk(t)
+    base = [x for x in leaves if base_pred(x)]
+    if len(base) != 1:
+        return None
+    return [x for x in leaves if x is not base[0]]
 
 
 def eval_letter(t, cvar, ch):
@@ -353,12 +362,22 @@ def run(ctx):
     def at_cursor(x, off=0):
         """x is the input from the cursor (+ off) on: s[idx + off ..]"""
         x = content(x)
-        if not (is_index_call(x) and content(call_args(x)[0]) == ("param", 1)):
+        # s[idx..][k..] is s[idx + k..]: the lower bounds of nested tails add up
+        los = []
+        for _ in range(4):
+            if not is_index_call(x):
+                break
+            rg = canon_range(call_args(x)[0], call_args(x)[1])
+            if rg is None or rg[1] != LEN:
+                return False
+            los.append(rg[0])
+            x = content(call_args(x)[0])
+        if not los or x != ("param", 1):
             return False
-        rg = canon_range(call_args(x)[0], call_args(x)[1])
-        if rg is None or rg[1] != LEN:
-            return False
-        ad = addends(rg[0], lambda t: isinstance(t, tuple) and t[0] == "havoc" and t[1] == loc["idx"])
+        total = los[0]
+        for l_ in los[1:]:
+            total = ("binop", "Add", total, l_)
+        ad = addends(total, lambda t: isinstance(t, tuple) and t[0] == "havoc" and t[1] == loc["idx"])
         return ad is not None and sum(const_int(a) or 0 for a in ad) == off and all(const_int(a) is not None for a in ad)
 
     # digits (with Option/Result combinators evaluated, `parse().unwrap_or(k)` is two rows: parsed / overflowed; a digit run taken by a
